@@ -11,6 +11,8 @@ val snd : ('a1 * 'a2) -> 'a2
 
 val length : 'a1 list -> nat
 
+val app : 'a1 list -> 'a1 list -> 'a1 list
+
 type comparison =
 | Eq
 | Lt
@@ -165,6 +167,8 @@ val nth : nat -> 'a1 list -> 'a1 -> 'a1
 
 val map : ('a1 -> 'a2) -> 'a1 list -> 'a2 list
 
+val flat_map : ('a1 -> 'a2 list) -> 'a1 list -> 'a2 list
+
 val fold_left : ('a1 -> 'a2 -> 'a1) -> 'a2 list -> 'a1 -> 'a1
 
 val fold_right : ('a2 -> 'a1 -> 'a1) -> 'a1 -> 'a2 list -> 'a1
@@ -228,6 +232,8 @@ val m_wrap : z
 val m_reflect : z
 
 val m_mirror : z
+
+val m_constant : z
 
 val clamp : z -> z -> z
 
@@ -363,3 +369,37 @@ val dot_border : z -> z list -> z list -> z -> z -> z
 val row_fast : z -> z list -> z list -> z list -> z list
 
 val row_spec : z -> z list -> z list -> z list
+
+val gather : z -> arr -> arr -> z -> z list -> z list
+
+val insert : z -> z list -> z list
+
+val isort : z list -> z list
+
+val rank_at : z -> arr -> arr -> z -> z list -> z option
+
+val rank_filter : z -> arr -> arr -> z -> z list -> z list
+
+val median_rank : arr -> z
+
+val mean_at : z -> arr -> arr -> z list -> z * z
+
+val mean_filter : z -> arr -> arr -> (z * z) list
+
+val wrapd : dt -> z -> z
+
+val tm_at : dt -> z -> arr -> arr -> z list -> z
+
+val template_match : dt -> z -> arr -> arr -> z list
+
+val window_eq : arr -> arr -> z -> z -> bool
+
+val find2d : arr -> arr -> z list
+
+val samples_spec : z -> arr -> arr -> z list -> z list
+
+val count_lt : z -> z list -> z
+
+val count_le : z -> z list -> z
+
+val ssd_spec : z -> arr -> arr -> z list -> z
